@@ -45,6 +45,9 @@ var boundaryAddrs = []string{
 type c17Doc struct {
 	Runs  [][]docHop `json:"runs"`
 	Names bool       `json:"names"` // hops already carry reverse DNS names
+	// DestMode: what the run's destination entry holds. "" = a fixed public address; "last-hop" = the address of
+	// the run's last (destination) hop, i.e. the target itself answered; "last-hop-16" = the same in 16-byte form
+	DestMode string `json:"dest_mode,omitempty"`
 }
 
 func checkC17Doc(t *testing.T, c *c17Doc, rec *Recorder) []Diff {
@@ -58,6 +61,18 @@ func checkC17Doc(t *testing.T, c *c17Doc, rec *Recorder) []Diff {
 					if len(h.IPAddress) > 0 {
 						h.ReverseDns = []string{"host-" + h.IPAddress.String() + ".example."}
 					}
+				}
+			}
+		}
+		if c.DestMode != "" {
+			for i := range d.Traceroute.Runs {
+				r := &d.Traceroute.Runs[i]
+				if n := len(r.Hops); n > 0 && len(r.Hops[n-1].IPAddress) > 0 {
+					ip := append(net.IP(nil), r.Hops[n-1].IPAddress...)
+					if c.DestMode == "last-hop-16" {
+						ip = ip.To16()
+					}
+					r.Destination.IPAddress = ip
 				}
 			}
 		}
@@ -116,9 +131,9 @@ func checkC17Doc(t *testing.T, c *c17Doc, rec *Recorder) []Diff {
 }
 
 func TestC17Docs(t *testing.T) {
-	rec := NewRecorder("C17", "C17Docs", "rapid: result documents whose hop addresses are drawn from every private block boundary (first, last, one below, one above of 10/8, 172.16/12, 192.168/16, fc00::/7), their IPv4-mapped forms, empty hops and public addresses, with and without reverse-DNS names already attached; oracle (independent netip.Prefix predicate on the unmapped address): private => entry is {ttl} only, otherwise identical to the un-redacted document, hop count and TTL positions unchanged, no private address in the JSON; non-trivial = >= 1 private and >= 1 public hop")
+	rec := NewRecorder("C17", "C17Docs", "rapid: result documents whose hop addresses are drawn from every private block boundary (first, last, one below, one above of 10/8, 172.16/12, 192.168/16, fc00::/7), their IPv4-mapped forms, empty hops and public addresses, with and without reverse-DNS names already attached, the run's destination entry either a fixed public address or the address of the run's last hop (a private target that answers); oracle (independent netip.Prefix predicate on the unmapped address): private => entry is {ttl} only, otherwise identical to the un-redacted document, hop count and TTL positions unchanged, no private address in the JSON; non-trivial = >= 1 private and >= 1 public hop")
 	RunProp(t, rec, func(rt *rapid.T) *c17Doc {
-		c := &c17Doc{Names: rapid.Bool().Draw(rt, "names")}
+		c := &c17Doc{Names: rapid.Bool().Draw(rt, "names"), DestMode: oneOf(rt, "dest_mode", "", "last-hop", "last-hop", "last-hop-16")}
 		nr := rapid.IntRange(1, 4).Draw(rt, "n_runs")
 		for i := 0; i < nr; i++ {
 			nh := rapid.IntRange(1, 14).Draw(rt, fmt.Sprintf("r%d_n", i))
@@ -233,7 +248,10 @@ func TestC17Request(t *testing.T) {
 			v6 = false
 		}
 		if v6 {
-			rq.P.Hostname = "2001:db8:ffff::1"
+			rq.P.Hostname = oneOf(rt, "target6", "2001:db8:ffff::1", "fd12:3456::1")
+		} else {
+			// the target itself may be private (and answer)
+			rq.P.Hostname = oneOf(rt, "target4", "93.184.216.34", "93.184.216.34", "10.20.30.40", "192.168.1.1")
 		}
 		s := FlowScript{DestDist: oneOf(rt, "dest", 0, rq.P.MaxTTL, rq.P.MaxTTL-1), Default: HopSpec{DelayUs: 3000}, Addrs: map[int]string{}}
 		for ttl := 1; ttl <= rq.P.MaxTTL; ttl++ {
